@@ -112,6 +112,31 @@ RPT = T("GoRollingBucketsP", [
     ("tie_slot_clear", "CM.GoTie.GoRP.go_clear_eq", "`clear` = `DSlot.clear`"),
     ("tie_slot_Durations", "CM.GoTie.GoRP.go_Durations_eq", "`Durations` = `DSlot.durations`: the first min(count, size) cells")])
 
+# ---- errors.go and faststats/atomic.go (units GoIsBadRequest, GoCircuitError, GoSimpleBadRequest, GoAtomicBoolean, GoAtomicInt64)
+ERR_BAD = T("GoIsBadRequest", [
+    ("tie_errs_IsBadRequest", "CM.GoTie.GoIsBadRequest.go_IsBadRequest_eq", "today's `IsBadRequest` = the first BadRequest implementer found by errors.As (depth-first, pre-order, through %w and joins) exists and answers true; never panics"),
+    ("tie_errs_IsBadRequest_wrap", "CM.GoTie.GoIsBadRequest.isBadRequest_wrap", "… a %w wrapper is transparent"),
+    ("tie_errs_IsBadRequest_simple", "CM.GoTie.GoIsBadRequest.isBadRequest_simpleBad", "… a SimpleBadRequest is a bad request whatever it wraps"),
+    ("tie_errs_IsBadRequest_abs", "CM.GoTie.GoIsBadRequest.absErr_isBad", "the verdict primitive used by the circuit.go ties is this function on the model's abstraction of the error")]) + T("GoSimpleBadRequest", [
+    ("tie_errs_SimpleBadRequest_BadRequest", "CM.GoTie.GoSimpleBadRequest.go_BadRequest_eq", "`SimpleBadRequest.BadRequest()` is the constant true")])
+ERR_NOTBAD = T("GoIsBadRequest", [
+    ("tie_errs_rejections_not_bad", "CM.GoTie.GoIsBadRequest.isBadRequest_circuit", "the library's rejections are never bad requests: they reach the fallback")]) + T("GoCircuitError", [
+    ("tie_errs_sentinels_not_bad", "CM.GoTie.GoCircuitError.sentinels_not_bad", "… in particular the two sentinels as declared today")])
+ERR_OPEN = T("GoCircuitError", [
+    ("tie_errs_CircuitOpen", "CM.GoTie.GoCircuitError.go_CircuitOpen_eq", "`CircuitOpen()` returns the flag"),
+    ("tie_errs_errCircuitOpen", "CM.GoTie.GoCircuitError.errCircuitOpen_CircuitOpen", "the sentinel for an open circuit, as declared today in errors.go, reports CircuitOpen()==true")])
+ERR_LIMIT = T("GoCircuitError", [
+    ("tie_errs_ConcurrencyLimitReached", "CM.GoTie.GoCircuitError.go_ConcurrencyLimitReached_eq", "`ConcurrencyLimitReached()` returns the flag"),
+    ("tie_errs_errThrottled", "CM.GoTie.GoCircuitError.errThrottled_ConcurrencyLimitReached", "the sentinel for a refused call, as declared today, reports ConcurrencyLimitReached()==true")])
+ATOM_I64 = T("GoAtomicInt64", [
+    ("tie_atomic_i64_Get", "CM.GoTie.GoAtomicInt64.go_Get_eq", "`AtomicInt64.Get` is one load of the word"),
+    ("tie_atomic_i64_Set", "CM.GoTie.GoAtomicInt64.go_Set_eq", "`AtomicInt64.Set` is one store"),
+    ("tie_atomic_i64_Duration", "CM.GoTie.GoAtomicInt64.go_Duration_eq", "`Duration()` is one load read as nanoseconds")])
+ATOM_BOOL = T("GoAtomicBoolean", [
+    ("tie_atomic_bool_Get", "CM.GoTie.GoAtomicBoolean.go_Get_eq", "`AtomicBoolean.Get` is one load; true ⇔ word ≠ 0"),
+    ("tie_atomic_bool_Set", "CM.GoTie.GoAtomicBoolean.go_Set_eq", "`Set(b)` is one store of 1 / 0"),
+    ("tie_atomic_bool_field", "CM.GoTie.GoAtomicBoolean.get_after_set", "so the word is a Bool field of the model state")])
+
 # ---- K6: interference ties (CircuitProofs/GoTie/I_*): the bodies translated over primitives in which an arbitrary move of the
 # other goroutines precedes every atomic / lock operation take exactly the steps of the small-step model's thread
 K6_CORE = [(("tie_k6_thread_view", "CM.GoTie.ICore.thread_view", "every schedule of any system, seen from one thread, is a run of that thread alone against SOME oracle: what is proved for every oracle covers every schedule"), "I_Core")]
@@ -140,7 +165,7 @@ K6_CALL = [((a, "CM.GoTie.ICall." + t, d), "I_Call") for a, t, d in [
 
 PROPS = {
     "C01": ("load shedding: who is admitted is decided by `allowNewRun` / `run`",
-            [C("IsOpen"), C("allowNewRun"), RUN] + NEVER),
+            [C("IsOpen"), C("allowNewRun"), RUN] + NEVER + ERR_OPEN),
     "C02": ("the built-in openers' method bodies, translated from today's opener.go / closers.go, are the model's functions",
             T("GoHOpener", evs("GoHOpener", "HOpener.onRun") + [
                 ("tie_GoHOpener_Opened", "CM.GoTie.GoHOpener.go_Opened_eq", "`Opened` resets both rolling counters"),
@@ -162,24 +187,24 @@ PROPS = {
                 ("tie_GoHCloser_ShouldClose", "CM.GoTie.GoHCloser.go_ShouldClose_eq", "`ShouldClose` compares the successes in a row with the required number")]) + TC +
             [C("close"), C("checkSuccess")] + CLOSER_CFG + K6_TC),
     "C04": ("the gauges and limits: `throttleConcurrentCommands`, the deferred decrements in `run` / `fallback`, the published limits",
-            [C("throttleConcurrentCommands"), C("ConcurrentCommands"), C("ConcurrentFallbacks"), RUN, FALLBACK] + LIVECFG),
+            [C("throttleConcurrentCommands"), C("ConcurrentCommands"), C("ConcurrentFallbacks"), RUN, FALLBACK] + LIVECFG + ERR_LIMIT + ATOM_I64),
     "C05": ("the classification chain of `run`",
-            [C("checkErrBadRequest"), C("checkErrTimeout"), C("checkErrInterrupt"), C("checkErrFailure"), C("checkSuccess"), RUN] + FAN_RUN + ALL),
-    "C06": ("fallback rules: `Execute` and `fallback`", [FALLBACK, EXECUTE, RUNENTRY] + FAN_FB),
+            [C("checkErrBadRequest"), C("checkErrTimeout"), C("checkErrInterrupt"), C("checkErrFailure"), C("checkSuccess"), RUN] + FAN_RUN + ALL + ERR_BAD),
+    "C06": ("fallback rules: `Execute` and `fallback`", [FALLBACK, EXECUTE, RUNENTRY] + FAN_FB + ERR_BAD + ERR_NOTBAD),
     "C07": ("contexts: the derived deadline context in `run`, the caller's context everywhere else", [RUN, FALLBACK, EXECUTE]),
     "C08": ("overrides and pass-through: `IsOpen`, `allowNewRun`, the transitions, `Execute`'s Disabled branch, the published flags",
-            [C("IsOpen"), C("isEmptyOrNil"), C("allowNewRun"), C("openCircuit"), C("close"), C("attemptToOpen"), EXECUTE] + LIVECFG + SETCFG),
+            [C("IsOpen"), C("isEmptyOrNil"), C("allowNewRun"), C("openCircuit"), C("close"), C("attemptToOpen"), EXECUTE] + LIVECFG + SETCFG + ATOM_BOOL),
     "C09": ("transitions and their notifications",
-            [C("IsOpen"), C("openCircuit"), C("close"), C("attemptToOpen"), C("OpenCircuit"), C("CloseCircuit"), C("checkSuccess"), C("checkErrFailure"), C("checkErrTimeout")] + FAN_CIRC + SETCFG),
+            [C("IsOpen"), C("openCircuit"), C("close"), C("attemptToOpen"), C("OpenCircuit"), C("CloseCircuit"), C("checkSuccess"), C("checkErrFailure"), C("checkErrTimeout")] + FAN_CIRC + SETCFG + ATOM_BOOL),
     "C10": ("panics: the deferred calls of `run` and `fallback` run on every exit", [RUN, FALLBACK, EXECUTE]),
     "C11": ("reconfiguration: what each SetConfigThreadSafe writes (circuit, hystrix opener, hystrix closer, SLO tracker) — every setting, nothing else",
             SETCFG + LIVECFG + OPENER_CFG + CLOSER_CFG + SLO_CFG),
     "C12": ("every timestamp is a reading of the configured clock: all translated functions of circuit.go",
             [C("now"), C("OpenCircuit"), C("CloseCircuit"), RUN, FALLBACK] + ALL),
     "C13": ("the rolling counter: rolling_bucket.go's `Advance` and rolling_counter.go's methods are the model `RC`", ROLL),
-    "C14": ("the counter under interference: every atomic step of rolling_counter.go / rolling_bucket.go is the small-step model's", K6_RC + K6_CORE),
+    "C14": ("the counter under interference: every atomic step of rolling_counter.go / rolling_bucket.go is the small-step model's", K6_RC + K6_CORE + ATOM_I64),
     "C15": ("rolling_percentile.go: the ring of circular buffers is the model `RP` / `DSlot`, the snapshot's numbers are the model `SD`", RPT + SD),
-    "C16": ("the gate: timedcheck.go's method bodies are the model `TC`", TC + K6_TC + K6_CORE),
+    "C16": ("the gate: timedcheck.go's method bodies are the model `TC`", TC + K6_TC + K6_CORE + ATOM_BOOL + ATOM_I64),
     "C17": ("the registry: manager.go's CreateCircuit / GetCircuit / MustCreateCircuit are the model `Mgr`", MGR),
     "C20": ("the collectors' method bodies, translated from today's rolling.go / responsetime.go, are the model's functions",
             T("GoRunStats", evs("GoRunStats", "Cons.RunStats.onRun") + [
@@ -205,6 +230,8 @@ UNITS = {"F_": "gocircuit", "All": "gocircuit", "T_GoHOpener": "gohopener", "T_G
          "T_GoFanRun": "gofanrun", "T_GoFanFb": "gofanfb", "T_GoFanCirc": "gofancirc", "T_GoSetCfg": "gosetcfg", "T_GoStream": "gostream", "T_GoRollingBuckets": "gorollingbuckets", "T_GoRollingCounter": "gorollingcounter",
          "T_GoManager": "gomanager", "T_GoSortedDurations": "gosorteddurations", "T_GoRollingBucketsP": "gorollingbucketsp",
          "T_GoRollingPercentile": "gorollingpercentile", "T_GoDurationsBucket": "godurationsbucket",
+         "T_GoIsBadRequest": "goisbadrequest", "T_GoCircuitError": "gocircuiterror", "T_GoSimpleBadRequest": "gosimplebadrequest",
+         "T_GoAtomicBoolean": "goatomicboolean", "T_GoAtomicInt64": "goatomicint64",
          "I_Core": [], "I_RC": ["gorciclear", "gorciadv", "gorciops"], "I_TC": "gotci", "I_Call": "gocalli",
          "T_GoLiveLogic": ["goneveropens", "gonevercloses", "gohopenercfg", "gohclosercfg", "goslocfg"]}
 
